@@ -4,6 +4,7 @@ import Kvass.Driver.Sidecar
 import Kvass.Driver.Store
 import Kvass.Driver.Proxy
 import Kvass.Driver.Disc
+import Kvass.Driver.Explore
 
 open Kvass.Driver
 
@@ -24,4 +25,5 @@ def main (args : List String) : IO UInt32 := do
   | ["store"] => loop stdin Store.handle; return 0
   | ["proxy"] => loop stdin Proxy.handle; return 0
   | ["disc"] => loop stdin Disc.handle; return 0
+  | ["explore"] => loop stdin Explore.handle; return 0
   | _ => IO.eprintln "usage: driver <engine>"; return 2
